@@ -27,7 +27,16 @@ pub fn main(tier: &str, seed: u64, n_override: Option<u64>) {
             };
             from[i] = f; to[i] = t;
         }
-        let k = Constraints::new(from, to, BY_PREV);
+        // all three ways of setting the limits (the sampler and compliant() read different fields of the same object)
+        let ctor = idx % 3;
+        let k = match ctor {
+            0 => Constraints::new(from, to, BY_PREV),
+            1 => { // degrees: use limits that are exact in degrees and convert back, so that the arc test sees the stored radians
+                let fd: [f64; 6] = std::array::from_fn(|i| (from[i].to_degrees() * 8.0).round() / 8.0); let td: [f64; 6] = std::array::from_fn(|i| (to[i].to_degrees() * 8.0).round() / 8.0);
+                let kk = Constraints::from_degrees(std::array::from_fn(|i| fd[i]..=td[i]), BY_PREV);
+                from = kk.from; to = kk.to; kk }
+            _ => { let mut kk = Constraints::new([-1.0, 0.5, -0.2, 0.3, 1.0, 2.0], [1.0, 1.5, 0.5, -0.5, 1.0, 7.0], BY_PREV); kk.update_range(from, to); kk }
+        };
         let mut lo = [f64::INFINITY; 6]; let mut hi = [f64::NEG_INFINITY; 6];
         let mut bad = 0u64; let mut first_bad = [0.0; 6]; let mut panicked = String::new();
         let mut self_bad = 0u64; let mut draw0: Option<([f64; 6], bool)> = None;
@@ -48,7 +57,7 @@ pub fn main(tier: &str, seed: u64, n_override: Option<u64>) {
         if !panicked.is_empty() { direct = "fail"; class = "C18.sampler_panics"; }
         else if bad > 0 { direct = "fail"; class = "C18.sample_outside_arc"; }
         else if self_bad > 0 { direct = "fail"; class = "C18.sample_rejected_by_compliant"; }
-        println!("{}", Obj::new().s("prop", "C18").i("case", idx as i64).fs("from", &from).fs("to", &to).i("draws", draws)
+        println!("{}", Obj::new().s("prop", "C18").i("case", idx as i64).i("ctor", ctor as i64).fs("from", &from).fs("to", &to).i("draws", draws)
             .fs("lo", &lo).fs("hi", &hi).i("bad", bad as i64).i("self_bad", self_bad as i64).fs("first_bad", &first_bad).fs("draw", &draw0.map(|d| d.0).unwrap_or([0.0; 6])).b("draw_ok", draw0.map(|d| d.1).unwrap_or(true)).s("panic", &panicked)
             .s("direct", direct).s("class", class).done());
     }
